@@ -16,7 +16,9 @@ class C19(Check):
     level_note = "Trusted: TLC, Json module. Patterns use bits {0,1} (and one high bit) of each byte; lengths 1-2 (3 sampled)."
     technique = "TLA+ specification (Matcher) model-checked with TLC; exhaustive small-scope inputs; TLC trace validation"
     trusted = ["Go harness: pattern construction", "TLC, CommunityModules Json"]
-    rule = ("patterns: lengths 1-2, bytes and masks over {0,1,2,3} per byte (so strings over 4 symbols decide ambiguity), plus "
+    rule = ("patterns: long patterns of 8, 9, 12 and 17 bytes differing in the first / a middle / the last byte (full and "
+            "sparse masks, duplicates in every position of the list); lengths 1-2, bytes and masks over {0,1,2,3} per byte "
+            "(so strings over 4 symbols decide ambiguity), plus "
             "ill-formed patterns (empty, length mismatch, last mask byte 0), bytes with bits outside the mask, a high-bit "
             "variant and sampled length-3 patterns; all sets of <= 2 patterns and sampled sets of 3; strings: all of "
             "length 0-2 over {0,1,2,3} plus sampled length 3 and high-bit strings; NewMatcher must succeed iff "
@@ -65,4 +67,25 @@ class C19(Check):
                 add([q, p])
         for _ in range(1500 if tier == "quick" else 30000):
             add([rng.choice(pool) for _ in range(3)])
+        # long patterns (more than 8 bytes: whatever is compared must be compared over the whole length), differing in
+        # the first, a middle or the last byte; identical patterns in every position of the list
+        for n in (8, 9, 12, 17):
+            tail = [(7 * i + 3) % 251 for i in range(n)]
+            variants = []
+            for pos in (0, n // 2, n - 1):
+                for d in (1, 2, 0x80):
+                    v = list(tail)
+                    v[pos] = (v[pos] + d) % 256
+                    variants.append(v)
+            full = [255] * n
+            partial = [255] + [0] * (n - 2) + [255]
+            for mask in (full, partial):
+                sets = [[tail, variants[0], variants[1]], [variants[0], tail, list(variants[0])], [tail, list(tail), variants[3]],
+                        [variants[2], variants[5], variants[8]], [variants[0], variants[3], variants[6], tail]]
+                for ps in sets:
+                    for perm in itertools.permutations(range(len(ps))) if len(ps) <= 3 else [tuple(range(len(ps)))]:
+                        pp = [{"bytes": ps[i], "mask": mask} for i in perm]
+                        ss = [ps[i] for i in range(len(ps))] + [ps[0] + [1, 2], ps[0][:-1], [0] * n]
+                        gs.append([{"case": "m%d" % k, "pats": pp, "strs": ss}])
+                        k += 1
         return gs
